@@ -69,7 +69,8 @@ class K3Adapter(object):
                     'position:closed-to-zero', 'position:flipped-through-zero', 'update:closed-with-pending',
                     'update:mixed-sides-batch']
         missing = [k for k in required if hist.get(k, 0) == 0]
-        if missing and r['stats']['cases'] - r['stats']['corpus_cases'] >= 100:
+        if missing and r['stats']['cases'] - r['stats']['corpus_cases'] >= 100 and not findings and not mism:
+            # only a run that would otherwise pass is invalidated by an incomplete input distribution
             raise common.Infra('generator missed the classes %s' % missing)
         return dict(findings=findings, mismatches=mism, coverage=cov, harness='K3 (harness/k3*.py)',
                     assumptions=['quotes are scripted (bid != ask); market-data lookup is C06\'s business',
@@ -180,7 +181,7 @@ class CaseAdapter(object):
                 cov[k] = int(v)
         if r['stats']['cases'] - r['stats']['corpus_cases'] >= 200:
             missing = [k for k in self.required_hist.get(prop, []) if r['hist'].get(k, 0) == 0]
-            if missing:
+            if missing and not findings and not mism:
                 raise common.Infra('generator missed the classes %s' % missing)
         return dict(findings=findings, mismatches=mism, coverage=cov, harness=self.label, assumptions=list(self.assumptions))
 
@@ -295,7 +296,7 @@ class K6Adapter(CaseAdapter):
 class K7Adapter(CaseAdapter):
     module_name = 'k7'
     label = 'K7 (harness/k7*.py)'
-    N = dict(quick={'C08': 150, 'C14': 120, 'C07': 80, 'C18': 8, 'C09': 60, 'C16': 60, 'C19': 80},
+    N = dict(quick={'C08': 250, 'C14': 200, 'C07': 200, 'C18': 8, 'C09': 100, 'C16': 100, 'C19': 120},
              thorough={'C08': 3000, 'C14': 2000, 'C07': 1200, 'C18': 60, 'C09': 800, 'C16': 800, 'C19': 1000})
     SEARCH = dict(quick=150, thorough=800)
     rule = ('seeded whole backtests on synthetic CSV markets written to a temporary directory (1-4 assets, gaps, missing cells, '
